@@ -379,6 +379,18 @@ def r05b(ck, prog):
     for a in store_nodes:
         w = site(prog, a, "s[j] value")
         ck.inst("R05b", w, "%s = %s" % (a.kids[0].text(), a.kids[1].text()), prog.config)
+        def via_helper(e, depth=0):
+            e0 = e.strip(casts=True)
+            if e0.k == "CallExpr" and e0.callee and prog.fn(prog.resolve(e0.callee, F.file), required=False) is not None:
+                return e0.callee
+            if e0.k == "DeclRefExpr" and depth < 2:
+                for r, _ in local_defs(F, e0.d["did"]):
+                    if r is not None and via_helper(r, depth + 1):
+                        return via_helper(r, depth + 1)
+            return None
+        if not from_table(a.kids[1]) and via_helper(a.kids[1]):
+            raise AnalysisBroken("R05b: the code stored to seq->s[j] is computed by the helper %s; whether it is an entry of the alphabet "
+                                 "table is not decided" % via_helper(a.kids[1]))
         if not from_table(a.kids[1]):
             ck.violation("R05b", "R05b/%s/s-value" % F.name, w,
                          "the code stored to seq->s[j] (%s) is not an entry of the alphabet table" % a.kids[1].text(),
@@ -417,6 +429,7 @@ def _pointee_written(m):
 
 def run(ck, progs):
     describe(ck)
+    ck.rule("R05y", "no local pointer is released twice on a path without being assigned in between (= R16j)")
     ck.rule("R05x", "the label copied into a Clustal/MSF output line is measured no more generously than the measure the line was sized from (= R15l): strnlen with the same cap, not strlen")
     for cfg, prog in progs.items():
         n = ck.attempt(r05a, ck, prog)
@@ -439,6 +452,8 @@ def run(ck, progs):
         ck.attempt(r05w, ck, prog)
         from . import c15
         ck.borrow(c15.r15l, prog, "R05x", ("R15l",))
+        from . import c16 as _c16
+        ck.borrow(_c16.r16j, prog, "R05y", ("R16j",))
         n = ck.attempt(r05r, ck, prog)
         ck.floor("R05r", n, 3, "line-length bounded accesses")
         ck.attempt(r05p, ck, prog)
@@ -1781,6 +1796,11 @@ def r05j_local(ck, prog, functions=None, table=None):
                             while q.parent is not None and q.parent.k in ("ParenExpr", "ImplicitCastExpr"):
                                 q = q.parent
                             if q.role == "inc" and q.parent is not None and q.parent.k == "ForStmt":
+                                continue
+                            # i++ at the end of  while(i < N){ ... }  is the same counted loop written with while
+                            wc = lp.child("cond").strip(casts=True) if lp.k == "WhileStmt" and lp.child("cond") is not None else None
+                            if wc is not None and wc.k == "BinaryOperator" and wc.d["op"] in ("<", "<=", "!=") and \
+                                    wc.kids[0].strip(casts=True).k == "DeclRefExpr" and wc.kids[0].strip(casts=True).d["did"] == v.d["did"]:
                                 continue
                             incs.append((u, lp))
                 if not incs:
